@@ -137,7 +137,8 @@ func (p *Parser) ReadPeek() {
 			// Skip Fastly pgrama embedded data
 			for {
 				t = p.tk.NextToken()
-				if t.Type == token.SEMICOLON {
+				// pragma may be placed at the end of input without semicolon
+				if t.Type == token.SEMICOLON || t.Type == token.EOF {
 					break
 				}
 			}
